@@ -53,8 +53,10 @@ type Prog struct {
 	sch       *schemaRes // name anchors resolved against the frozen schema (schema.go)
 	// higher-order helpers (`dict.forEach(visit)`): the call of the function-valued parameter inside the helper is
 	// resolved per call site of the helper, not to every function ever passed to it
-	liftedAway  map[ssa.CallInstruction]bool
-	liftedExtra map[ssa.CallInstruction][]*ssa.Function
+	liftedAwayR  map[ssa.CallInstruction]bool
+	liftedExtraR map[ssa.CallInstruction][]*ssa.Function
+	liftedAway   map[ssa.CallInstruction]bool
+	liftedExtra  map[ssa.CallInstruction][]*ssa.Function
 }
 
 func baseEnv() []string {
@@ -249,6 +251,19 @@ func (p *Prog) Callees(c ssa.CallInstruction) []*ssa.Function {
 	}
 	out := p.siteOut[c]
 	sort.Slice(out, func(i, j int) bool { return out[i].String() < out[j].String() })
+	return out
+}
+
+// CalleesReach: like Callees, with the calls that locking helpers make through their function parameters attributed to
+// the helpers' call sites as well (for rules about what a command can reach, not about what it holds while it does).
+func (p *Prog) CalleesReach(c ssa.CallInstruction) []*ssa.Function {
+	if p.liftedAwayR[c] {
+		return nil
+	}
+	out := p.Callees(c)
+	if extra := p.liftedExtraR[c]; len(extra) > 0 {
+		out = append(append([]*ssa.Function{}, out...), extra...)
+	}
 	return out
 }
 
@@ -490,9 +505,14 @@ func (p *Prog) source(file string) []byte {
 func (p *Prog) liftHigherOrder() {
 	p.liftedAway = map[ssa.CallInstruction]bool{}
 	p.liftedExtra = map[ssa.CallInstruction][]*ssa.Function{}
+	// the same attribution for helpers that lock (`setAlgebra(compute, finish)` takes the database lock and calls both):
+	// kept apart, for rules that only ask what a command can reach — the lock analysis needs those calls inside the helper
+	p.liftedAwayR = map[ssa.CallInstruction]bool{}
+	p.liftedExtraR = map[ssa.CallInstruction][]*ssa.Function{}
 	type hp struct {
-		h   *ssa.Function
-		idx int
+		h     *ssa.Function
+		idx   int
+		syncy bool
 	}
 	var cands []hp
 	// touchesSync: the function, or anything it calls (the function-valued parameters aside), starts a goroutine or
@@ -547,9 +567,7 @@ func (p *Prog) liftHigherOrder() {
 		if h.Blocks == nil {
 			continue
 		}
-		if touchesSync(h, 0) {
-			continue
-		}
+		syncy := touchesSync(h, 0)
 		for i, q := range h.Params {
 			if _, isSig := q.Type().Underlying().(*types.Signature); !isSig {
 				continue
@@ -568,7 +586,7 @@ func (p *Prog) liftHigherOrder() {
 				}
 			}
 			if onlyCalled {
-				cands = append(cands, hp{h, i})
+				cands = append(cands, hp{h, i, syncy})
 			}
 		}
 	}
@@ -616,6 +634,17 @@ func (p *Prog) liftHigherOrder() {
 			}
 		}
 		if !ok || nsites == 0 {
+			continue
+		}
+		if cd.syncy {
+			for _, r := range referrers(cd.h.Params[cd.idx]) {
+				if call, isCall := r.(*ssa.Call); isCall {
+					p.liftedAwayR[call] = true
+				}
+			}
+			for _, sf := range resolved {
+				p.liftedExtraR[sf.site] = append(p.liftedExtraR[sf.site], sf.fn)
+			}
 			continue
 		}
 		for _, r := range referrers(cd.h.Params[cd.idx]) {
